@@ -95,11 +95,13 @@ def prove(prop, tier, R, only_keys=None):
         if prop in lm.props:
             obligations += verify_lemma(name)
     effects = []
-    if prop in ("C10", "C18", "C04"):
+    if prop in ("C10", "C18", "C04", "C11"):
         from pyvc.effects import effect_obligations
         effects = [o for o in effect_obligations() if (prop == "C10" and "bonds-are-made-only" not in o.name)
                    or (prop == "C18" and (".graph_generate." in o.name or ".stochastic_atom_graph." in o.name))
-                   or (prop == "C04" and "bonds-are-made-only" in o.name)]
+                   or (prop == "C04" and "bonds-are-made-only" in o.name)
+                   # a law "with its own parameters" has no state shared between distribution objects
+                   or (prop == "C11" and ".distribution." in o.name and "no-module-state" in o.name)]
     # per-query wall-clock budget: obligations enter the lock only if they discharge well inside it on the unchanged tree (the slowest locked one takes < 5 s),
     # so that a busy machine does not flip a verdict
     timeout = 30 if tier == "quick" else 90
